@@ -1299,7 +1299,7 @@ export class TupleRuntype extends BaseRuntype {
     return annotateSchema(this.metadata, {
       type: "array",
       // Draft 2020-12 requires a non-empty prefixItems array
-      ...(prefixItems.length > 0 ? { prefixItems } : {}),
+      ...(prefixItems.length > 0 ? { prefixItems, minItems: prefixItems.length } : {}),
       items,
     } as any);
   }
